@@ -23,7 +23,7 @@ ASSUMPTIONS = [
 
 
 def shards(tier, seed):
-    n = 1 if tier == 'quick' else 16
+    n = 8 if tier == 'quick' else 16
     return [dict(i=i, n=n) for i in range(n)]
 
 
@@ -143,7 +143,7 @@ def check_pair(sink, seed, idx):  # noqa: C901
 
 
 def run_shard(sink, tier, seed, shard):
-    n = harness.scale(7000, 700000, tier)
+    n = harness.scale(50000, 700000, tier)
     i0, step = (shard or {}).get('i', 0), (shard or {}).get('n', 1)
     for idx in range(i0, n, step):
         sink.guard('harness', 'pair', dict(index=idx), lambda: check_pair(sink, seed, idx))
